@@ -24,7 +24,7 @@ variable (ctx : BCtx)
 
 def buildManipulatorOn (env : Env) (m : ManipOpt) (args : List ParamVar) (label : String) :
     Outcome (Option Manipulator) :=
-  let pkg := (env.importName m.pkgPath).getD ""
+  let pkg := hookQualifier env m.pkgPath
   let fname := manipFuncName pkg m.name
   let err (msg : String) : Outcome (Option Manipulator) := .error [s!"{m.pos}: {msg}"]
   match label with
@@ -51,14 +51,14 @@ theorem buildManipulator_follows_source (env : Env) (m : ManipOpt) (src dst : Pa
     (retError : Bool) :
     buildManipulator env (some m) src dst args retError =
       buildManipulatorOn env m args (Generated.Decisions.buildManipulator false
-        ((env.importName m.pkgPath).getD "" != "") m.exported m.retError retError
+        (hookQualifier env m.pkgPath != "") m.exported m.retError retError
         (env.assignable (env.derefPtr dst.ty) (env.derefPtr m.dstSide))
         (env.assignable (env.derefPtr src.ty) (env.derefPtr m.srcSide))
         (!m.additionalArgs.isEmpty) (m.additionalArgs.length != args.length)
         ((m.additionalArgs.zip args).zipIdx.find? (fun ((h, a), _) => !env.assignable a.ty h)).isSome) := by
   unfold buildManipulator Generated.Decisions.buildManipulator
   simp only
-  cases hp : ((env.importName m.pkgPath).getD "" != "") <;> cases hx : m.exported <;> cases hr : m.retError <;> cases retError <;>
+  cases hp : (hookQualifier env m.pkgPath != "") <;> cases hx : m.exported <;> cases hr : m.retError <;> cases retError <;>
     cases env.assignable (env.derefPtr dst.ty) (env.derefPtr m.dstSide) <;>
     cases env.assignable (env.derefPtr src.ty) (env.derefPtr m.srcSide) <;>
     cases he : m.additionalArgs.isEmpty <;> cases (m.additionalArgs.length != args.length) <;>
@@ -90,11 +90,11 @@ two parameters (the second test is the repair of the `makeslice` crash) -/
 theorem lookupManipulatorFunc_follows_source (env : Env) (sc : Scope) (name optName pos : String) :
     lookupManipulatorFunc env sc name optName pos =
       (match lookupType env sc name with
-       | .notFound => lookupManipulatorOn env name optName pos default (Generated.Decisions.lookupManipulatorFunc true false false false false false)
-       | .notFunc => lookupManipulatorOn env name optName pos default (Generated.Decisions.lookupManipulatorFunc false false false false false false)
+       | .notFound => lookupManipulatorOn env name optName pos default (Generated.Decisions.lookupManipulatorFunc true false false false false false false)
+       | .notFunc => lookupManipulatorOn env name optName pos default (Generated.Decisions.lookupManipulatorFunc false false false false false false false)
        | .func sig => lookupManipulatorOn env name optName pos sig (Generated.Decisions.lookupManipulatorFunc false true
            (1 < sig.results.length) (sig.results.length == 1) (env.isErrorType (sig.results.headD 0))
-           (sig.params.length < 2))) := by
+           (sig.params.length < 2) sig.variadic)) := by
   unfold lookupManipulatorFunc Generated.Decisions.lookupManipulatorFunc badHookResult
   cases lookupType env sc name with
   | notFound => simp [lookupManipulatorOn]
@@ -102,7 +102,8 @@ theorem lookupManipulatorFunc_follows_source (env : Env) (sc : Scope) (name optN
   | func sig =>
     simp only
     rcases hp : sig.params with _ | ⟨a, _ | ⟨b, ps⟩⟩ <;> rcases hr : sig.results with _ | ⟨r, _ | ⟨e, rs⟩⟩ <;>
-      simp [lookupManipulatorOn, hp, hr] <;>
+      cases hv : sig.variadic <;>
+      simp [lookupManipulatorOn, hp, hr, hv] <;>
       (try (cases env.isErrorType _ <;> simp)) <;>
       (try (have h2 : ¬ (ps.length + 1 + 1 < 2) := by omega
             simp [h2]))
